@@ -1,4 +1,8 @@
-(* ChannelSched.v — the send side of a secure channel as an interleaving semantics (C11, C16).
+(* ChannelSchedBeforeGapFix.v — Model/ChannelSched.v AS IT WAS before fix bf63793 (a request of which nothing was
+   written hands its sequence number back): a send failing before its first chunk left a GAP entry.  Kept only for
+   C11_refuted_before_fix_early_failure_gap; nothing else refers to it.
+
+   The send side of a secure channel as an interleaving semantics (C11, C16).
 
    Threads: any number of senders (spawned at any time; a request sender on the client, or -- on a channel
    that never renews, like the server's -- a response sender) and one renewer that may renew again and again.
@@ -15,10 +19,10 @@
                                                                                   lock; one Write per chunk on the one
                                                                                   TCP connection)
                                        (the send fails: ctx done, encode,
-                                        sign or write error)           EFail     (before the first chunk the number
-                                                                                  taken by newRequestMessage is handed
-                                                                                  back under the lock; later the numbers
-                                                                                  written stay used: nothing to undo)
+                                        sign or write error)           EFail     (before the first chunk: the number
+                                                                                  taken by newRequestMessage is used up
+                                                                                  and never written -- recorded as a
+                                                                                  GAP entry; later: nothing happens)
                                        instance.Unlock()               EUnlockI
                                        pendingReq.Done()               EDone
      renewer  Renew / scheduleRenewal: (read the instance to renew)    ERenStart
@@ -44,7 +48,8 @@ Open Scope Z_scope.
 Definition tid := nat.
 Definition iid := nat.
 
-Inductive owner := OwnS (t : tid) | OwnR (n : nat).
+(* OwnGap t: not a chunk -- the sequence number that sender t took and never wrote (failed before its first chunk) *)
+Inductive owner := OwnS (t : tid) | OwnR (n : nat) | OwnGap (t : tid).
 
 Record chunk := Chunk {
   c_seq : Z; c_req : Z; c_final : bool; c_opn : bool;
@@ -83,7 +88,7 @@ Record st := St {
   iseq : iid -> Z;                   (* channelInstance.sequenceNumber *)
   ilock : iid -> option owner;       (* channelInstance.Mutex *)
   next_req : Z;
-  wire_rev : list chunk;             (* newest first *)
+  wire_rev : list chunk;             (* newest first; includes the GAP entries (see visible) *)
   renewals : nat;                    (* ghost: completed ERenInstall steps *)
   ropn : nat }.                      (* ghost: OPN requests written so far *)
 
@@ -155,7 +160,11 @@ Definition step (s : st) (e : ev) : option st :=
                                         Some (emit s i id final false (OwnS t), if final then SWritten i else SWriting n i id (S k))
                                     | _ => None end)
   | EFail t => sstep s t (fun pc => match pc with
-                                   | SWriting n i id k => Some (s, SWritten i)
+                                   | SWriting n i id k =>
+                                       Some (match k with
+                                             | O => emit s i id true false (OwnGap t)   (* the number is gone *)
+                                             | S _ => s
+                                             end, SWritten i)
                                    | _ => None end)
   | EUnlockI t => sstep s t (fun pc => match pc with
                                       | SWritten i => Some (set_ilock s (updI (ilock s) i None), SUnlocked)
@@ -205,12 +214,15 @@ Definition reachableP (P : st -> ev -> bool) (seq0 req0 : Z) (s : st) : Prop :=
   exists evs, runP P evs (init seq0 req0) = Some s.
 Definition reachable := reachableP anyev.
 
-Definition wire (s : st) : list chunk := rev (wire_rev s).
+(* what is really on the connection: everything but the GAP entries *)
+Definition visible (c : chunk) : bool := match c_owner c with OwnGap _ => false | _ => true end.
+Definition wire_rev_visible (s : st) : list chunk := filter visible (wire_rev s).
+Definition wire (s : st) : list chunk := rev (wire_rev_visible s).
 
 (* ---- the two halves of the property, as executable predicates on the wire (newest chunk first) ---- *)
 
 Definition owner_eqb (a b : owner) : bool :=
-  match a, b with OwnS x, OwnS y => Nat.eqb x y | OwnR x, OwnR y => Nat.eqb x y | _, _ => false end.
+  match a, b with OwnS x, OwnS y => Nat.eqb x y | OwnR x, OwnR y => Nat.eqb x y | OwnGap x, OwnGap y => Nat.eqb x y | _, _ => false end.
 
 (* every chunk carries the successor of the number of the chunk written before it *)
 Fixpoint consecutive_rev (w : list chunk) : bool :=
@@ -230,25 +242,17 @@ Fixpoint contiguous_rev (w : list chunk) : bool :=
   | _ => true
   end.
 
+(* the runs on which no send fails before its first chunk is written *)
+Definition early_fail (pc : spc) : bool := match pc with SWriting _ _ _ O => true | _ => false end.
+Definition no_early_fail (s : st) (e : ev) : bool :=
+  match e with
+  | EFail t => match nth_error (ss s) t with Some pc => negb (early_fail pc) | None => true end
+  | _ => true
+  end.
+
 (* projection compared with the frames captured on the real connection *)
 Definition wire_obs (s : st) : list (Z * Z * bool * bool) :=
   map (fun c => (c_seq c, c_req c, c_final c, c_opn c)) (wire s).
-
-(* comparison with the harness: full (seq, request id, final, opn) or, for response senders whose request ids are
-   chosen by the caller, only (seq, final) *)
-Fixpoint obs_eqb (full : bool) (a b : list (Z * Z * bool * bool)) : bool :=
-  match a, b with
-  | [], [] => true
-  | (s1, r1, f1, o1) :: a', (s2, r2, f2, o2) :: b' =>
-      (s1 =? s2) && (negb full || ((r1 =? r2) && Bool.eqb o1 o2)) && Bool.eqb f1 f2 && obs_eqb full a' b'
-  | _, _ => false
-  end.
-
-Definition schedule_agrees (full : bool) (seq0 req0 : Z) (evs : list ev) (observed : list (Z * Z * bool * bool)) : bool :=
-  match run evs (init seq0 req0) with
-  | Some s => obs_eqb full (wire_obs s) observed
-  | None => false
-  end.
 
 (* C16: the receiver side of a renewal.  The server re-keys its ONE instance in place when it handles the renewal
    request, so from then on it can only verify chunks secured by the newest token: a chunk is accepted iff no chunk of
